@@ -8,8 +8,8 @@ import vlib
 from vlib import t_vec, fq, ff, Result
 
 ID = "C12"
-LEAN_MODULES = ["NdInterp.Props.C12", "NdInterp.Props.RatTie", "NdInterp.Props.IntTie"]
-THEOREM_FILES = [("NdInterp/Props/C12.lean", "C12_"), ("NdInterp/Props/IntTie.lean", "C12_")]
+LEAN_MODULES = ["NdInterp.Props.C12", "NdInterp.Props.RatTie", "NdInterp.Props.IntTie", "NdInterp.Props.FormulaTie.Ctl"]
+THEOREM_FILES = [("NdInterp/Props/C12.lean", "C12_"), ("NdInterp/Props/IntTie.lean", "C12_"), ("NdInterp/Props/FormulaTie/Ctl.lean", "FT_ctl_")]
 RULE = ("every word over {<,=,>} of consecutive-pair relations up to length L (quick 8, thorough 11), realised as "
         "rational, f64 and i64 (small and > 2^53) vectors in contiguous / strided / reversed views; every NaN placement in f64 vectors up to "
         "length 6 (quick) / 8 (thorough); random long vectors. non-trivial = vector of length >= 2; distinct = distinct case line")
